@@ -178,4 +178,27 @@ add("C19", "c_transport",
     text="Reader's byte stream equals the concatenated writes; every record's length field equals its actual length <= 65535; the handshake succeeds iff the digest is right.",
     note="")
 
+
+add("C32", "c_files",
+    [T("TestC32", 2000, 4000, env=BUBBLE), T("TestC32Boundaries", 1, 1, rapid=False, env=BUBBLE, timeout_thorough=2400)],
+    pre=["TestC32Regression_unknown_total_exact_multiple"],
+    rule="deterministic generator sources (byte=f(seed,offset), short reads, EOF with or after the last bytes), known total or -1, automatic / explicit valid / explicit invalid part sizes, 1..8 threads, sizes around k*part, 10 MiB+-1, 3999*part+-1 (2 GB class in thorough only), mock server answering true/false/FLOOD_WAIT_n/FLOOD_PREMIUM_WAIT_n from a drawn (part, attempt) script with virtual latencies. non-trivial = (n>=2 and >=1 retry) or size within +-1 of a threshold; distinct by parameters",
+    technique="model-based PBT on virtual time (rapid + testing/synctest): part ledger vs. the source",
+    text="Accepted parts are 0..n-1 exactly once, retransmissions byte-identical, part hashes equal the source slices, sizes/last part/auto part size/3999 limit, descriptor kind/Parts/MD5, FileTotalParts == n when known.",
+    note="Upload refusal is allowed only where upstream documents it.",
+    assumptions=["source content is a pure function of the offset"])
+add("C33", "c_files",
+    [T("TestC33", 10000, 100000, env=BUBBLE)],
+    rule="file sizes around k*part, exact multiples, uniform, tiny (<= 8 MiB); part sizes 4 KiB..1 MiB; 1..8 threads; Stream/Parallel; honest master with per-(chunk,attempt) faults FLOOD_WAIT, FLOOD_PREMIUM_WAIT, rpc Timeout, context.DeadlineExceeded, net timeouts; latencies 0/5/50/3000 ms so replies complete out of order. non-trivial = size % part == 0 or (Parallel, threads>=2, >=1 retry); distinct by parameters",
+    technique="model-based PBT on virtual time (rapid + synctest): written bytes vs. the model file",
+    text="Stream: exact byte sequence; Parallel: every WriteAt matches the file, spans tile [0,size) without gap or overlap; returned type equals served type; requests stay on the part grid.",
+    note="")
+add("C34", "c_files",
+    [T("TestC34", 2500, 25000, env=BUBBLE), T("TestC34Plan", 1, 1, rapid=False, env=BUBBLE, timeout_thorough=2400)],
+    pre=["TestC34Regression_short_cdn_reply_accepted", "TestC34Regression_overlong_cdn_reply_delivered", "TestC34Regression_bytes_past_verified_tail"],
+    rule="genuine files <= 4 MiB with regular/irregular hash windows, honest hash service on all four paths, modes master-verify / cdn-inline (x3) / cdn-verify, part sizes aligned and not aligned with windows, 1..4 threads, events (master-direct, reupload, token invalid, fingerprint errors), adversarial CDN mutations (flip, truncate, truncate at window, empty, extend with genuine/garbage, other offset, swap, wrong counter base) keyed by file position; plus the complete (offset, limit) grid of the CDN request plan (quick 272x136, thorough 600x300, exhaustive:true). non-trivial = a served reply was actually changed (TestC34) / plan needs >1 request (plan); distinct by parameters. Replies shorter than the asked limit in cdn-inline mode are the shape of the listed known finding and are excluded at the adversary (counted)",
+    technique="adversarial PBT on virtual time (rapid + synctest) with a reference CDN (AES-CTR, SHA-256, plan predicate in pbt/ref/cdn.go) + exhaustive enumeration of the request-plan grid",
+    text="A download either fails or equals the genuine file; honest servers must succeed; every getCdnFile range is a valid aligned window and the requests of a chunk tile the asked range (complete grid). One listed known finding.",
+    note="Known finding C34-short-cdn-reply is not repairable without editing an upstream test.")
+
 NOT_CLAIMED = {}
